@@ -975,11 +975,21 @@ def fam_dist(rng, exact):
         if exact and rng.random() < 0.3:
             ws = [rng.choice([3.0, -4.0, 0.0, 12.0, 5.0]) for _ in range(n)]
         p = rng.choice([0, 1, 1, 2, 2, 3, 4, "inf"])
+        ints = False
+        if rng.random() < 0.2:
+            # integer-typed samples (python ints / an integer ndarray) with powers whose int64 value would wrap
+            ints = True
+            ws = [float(rng.choice([-1000, 1000, 7, -20, 19, 3, 0, 250, 1, -2])) for _ in range(n)]
+            p = rng.choice([2, 3, 7, 16, 25, 1, "inf"])
         ct = Cert()
         if p not in (0, "inf"):
             tot = ct.sum([abs(ct.pow(w, p)) for w in ws])
         ex = exact and ct.ok and p in (0, 1, "inf")
-        obs = call(D.Lnorm, maybe_np(rng, ws), np.inf if p == "inf" else p)
+        if ints:
+            arg = [int(w) for w in ws] if rng.random() < 0.5 else np.array([int(w) for w in ws], dtype=np.int64)
+        else:
+            arg = maybe_np(rng, ws)
+        obs = call(D.Lnorm, arg, np.inf if p == "inf" else p)
         line = "C18 lnorm (ws %s) (p %s)" % (fl(ws), p)
         scale = max(abs(w) for w in ws) + 1.0
 
@@ -998,7 +1008,7 @@ def fam_dist(rng, exact):
                     good = v >= 0 and q_close(Fr(v) ** p, sum(abs(a) ** p for a in q), scale ** p)
                 if not good:
                     mon.append(("Lnorm/definition", "Lnorm(%r, %s) = %r" % (ws, p, v)))
-            return d, mon, "Lnorm:p=%s:%s" % (p, "exact" if ex else "general"), len(set(ws)) > 1
+            return d, mon, "Lnorm:p=%s:%s%s" % (p, "exact" if ex else "general", ":int-typed" if ints else ""), len(set(ws)) > 1
         return dict(op="Lnorm", inputs={"ws": ws, "p": p}, line=line, obs=obs, exact=ex, check=check)
     kind = rng.choice(["chebyshev", "hamming", "manhattan", "euclidean", "minkowski"])
     p = {"manhattan": 1, "euclidean": 2}.get(kind, rng.choice([1, 2, 3, 3, 4]))
